@@ -785,15 +785,17 @@ func (t *T) fail(now bool, msg string) {
 	}
 }
 
-// failFrom propagates a non-fatal failure signalled on inner
-// (T handed to a Custom generator function) to t.
+// failFrom propagates a failure signalled on inner (T handed to a Custom
+// generator function) to t and stops the test case: the attempt of the
+// generator function that has failed might be rejected and retried otherwise,
+// making the verdict depend on bits that are discarded.
 func (t *T) failFrom(inner *T) {
 	inner.mu.RLock()
 	failed := inner.failed
 	inner.mu.RUnlock()
 
 	if failed != "" {
-		t.fail(false, string(failed))
+		t.fail(true, string(failed))
 	}
 }
 
